@@ -159,20 +159,35 @@ func genModuleG(seed uint64, stream string, fault, dup int) (string, *modGen) {
 	}
 	// ---- globals: addresses of each other (forward and backward), typed with the named types
 	gorder := r.perm(nG)
+	gkind := make([]int, nG)
+	gtype := make([]string, nG) // content type of each global, so that references are well typed
+	for i := range gkind {
+		gkind[i] = r.intn(4)
+		switch gkind[i] {
+		case 0:
+			gtype[i] = "i32"
+		case 2:
+			gtype[i] = tname(r.intn(nT))
+		default:
+			gtype[i] = "i8*"
+		}
+	}
+	gkind[0], gtype[0] = 0, "i32" // @g0 is always an i32: loads go through it
 	for _, i := range gorder {
 		dup := g.def("global", gname(i))
 		g.begin("global", gname(i), "plain", dup)
 		var init string
-		switch r.intn(4) {
+		switch gkind[i] {
 		case 0:
 			init = fmt.Sprintf("i32 %d", i)
 		case 1:
-			init = fmt.Sprintf("i8* bitcast (%s to i8*)", c_gref(g, r, nG, gname))
+			j := r.intn(nG)
+			init = fmt.Sprintf("i8* bitcast (%s* %s to i8*)", gtype[j], g.use("global", gname(j), "global init"))
 		case 2:
-			t := g.use("type", tname(r.intn(nT)), "global type")
+			t := g.use("type", gtype[i], "global type")
 			init = fmt.Sprintf("%s zeroinitializer", t)
 		default:
-			init = fmt.Sprintf("i8* bitcast (void ()* %s to i8*)", g.use("global", fname(r.intn(nF)), "global init"))
+			init = fmt.Sprintf("i8* bitcast (i32 (i32, i32)* %s to i8*)", g.use("global", fname(r.intn(nF)), "global init"))
 		}
 		extra := ""
 		if r.chance(30) {
@@ -204,7 +219,7 @@ func genModuleG(seed uint64, stream string, fault, dup int) (string, *modGen) {
 	g.line("@al = alias i8*, i8** %s", g.use("global", "@pp", "alias target"))
 	g.def("global", "@ifn")
 	g.begin("global", "@ifn", "plain", false)
-	g.line("@ifn = ifunc void (), void ()* %s", g.use("global", fname(0), "ifunc resolver"))
+	g.line("@ifn = ifunc i32 (i32, i32), i32 (i32, i32)* %s", g.use("global", fname(0), "ifunc resolver"))
 	// ---- functions
 	g.begin("global", "@ext", "plain", false)
 	g.line("declare i32 @ext(i32) %s", g.use("attr", fmt.Sprintf("#%d", r.intn(nAttr)), "func attr"))
@@ -274,10 +289,10 @@ func (g *modGen) genFunc(i, nF, nG, nT int, nblocks []int, fname, gname, tname f
 		emit("%s", xl)
 	}
 	emit("%s", xl)
-	emit("\t%%%d = call i32 %s(i32 %s)", next, g.use("global", fname((i+1)%nF), "callee"), g.use("local", "%x", "call arg"))
+	emit("\t%%%d = call i32 %s(i32 %s, i32 1)", next, g.use("global", fname((i+1)%nF), "callee"), g.use("local", "%x", "call arg"))
 	call := next
 	next++
-	emit("\t%%ld = load i32, i32* %s", g.use("global", gname(r.intn(nG)), "load address"))
+	emit("\t%%ld = load i32, i32* %s", g.use("global", gname(0), "load address"))
 	emit("\t%%ty = alloca %s", g.use("type", tname(r.intn(nT)), "alloca type"))
 	if unnamedGlobal {
 		emit("\tstore i32 1, i32* %s", g.use("global", "@0", "store address"))
